@@ -5,7 +5,10 @@ import (
 	"os"
 	"path/filepath"
 	"runtime/debug"
+	"sort"
 	"strings"
+
+	"github.com/lindb/lindb/kv/table"
 
 	"github.com/lindb/lindb/verif/internal/imgfs"
 	"github.com/lindb/lindb/verif/internal/seam"
@@ -134,13 +137,22 @@ func (h *hist) crashStep(dir string) {
 	debug.SetPanicOnFault(true)
 	for i, img := range images {
 		if pick[i] {
-			h.verifyImage(img, before)
+			// variant with idle restarts (open + close without any work) between the recovery and the repeated rollup, on
+			// a copy of the image: a store writes a fresh MANIFEST snapshot each time it is opened, the next open reads it
+			cp := imgfs.Image{Index: img.Index, Label: img.Label, Hash: img.Hash, Dir: img.Dir + "-restarts"}
+			if _, err := imgfs.CopyTree(img.Dir, cp.Dir, nil); err == nil {
+				h.verifyImage(cp, before, 1+i%2)
+				_ = os.RemoveAll(cp.Dir)
+			} else {
+				res.Fatal = "cannot copy image: " + err.Error()
+			}
+			h.verifyImage(img, before, 0)
 		}
 		_ = os.RemoveAll(img.Dir)
 	}
 }
 
-func (h *hist) verifyImage(img imgfs.Image, before map[int]map[int64]string) {
+func (h *hist) verifyImage(img imgfs.Image, before map[int]map[int64]string, restarts int) {
 	res := h.res
 	label := strings.ReplaceAll(img.Label, h.env.dataDir, "<data>")
 	// a view of the history bound to the recovered engine, with its own file statuses
@@ -242,6 +254,58 @@ func (h *hist) verifyImage(img imgfs.Image, before map[int]map[int64]string) {
 	}
 	v.checkNotes("crash-recovery", tv)
 
+	// ---- 1b. idle restarts: marks, references (source store, source family id, table) and target data stay what they were
+	for n := 1; n <= restarts; n++ {
+		ctx := fmt.Sprintf("crash-recovery-and-idle-restart-%d", n)
+		marksBefore, refsBefore := fmt.Sprint(marksOf(books)), refSet(v.m, tv)
+		v.env.close()
+		e, err := openEnv(img.Dir, nil)
+		if err != nil {
+			res.violation("C04/crash/engine-does-not-open/after-idle-restart", fmt.Sprintf("%s, restart %d: %v", v.stepOp, n, err), h.witness(map[string]interface{}{"image": label}))
+			return
+		}
+		v.env = e
+		if err := v.bind(); err != nil {
+			res.violation("C04/crash/source-family-not-recovered/after-idle-restart", fmt.Sprintf("%s, restart %d: %v", v.stepOp, n, err), h.witness(map[string]interface{}{"image": label}))
+			return
+		}
+		res.count("crash.idle_restarts_before_the_repeated_rollup", 1)
+		books = v.books()
+		tv, err = v.readTargets()
+		if err != nil {
+			res.violation("C04/crash/target-unreadable/after-idle-restart", fmt.Sprintf("%s, restart %d: %v", v.stepOp, n, err), h.witness(map[string]interface{}{"image": label}))
+			return
+		}
+		if got := fmt.Sprint(marksOf(books)); got != marksBefore {
+			res.violation("C04/bookkeeping/rollup-marks-changed-by-idle-restart", fmt.Sprintf("%s, restart %d: rollup marks per source family were %s, after close+open they are %s", v.stepOp, n, marksBefore, got), h.witness(map[string]interface{}{"image": label}))
+		}
+		if got := refSet(v.m, tv); got != refsBefore {
+			res.violation("C04/bookkeeping/reference-files-changed-by-idle-restart", fmt.Sprintf("%s, restart %d: reference files (target family <- source store/family id/table) were %s, after close+open they are %s", v.stepOp, n, refsBefore, got), h.witness(map[string]interface{}{"image": label}))
+		}
+		if len(tv.refs[v.m.targets[0]]) > 0 || (len(v.m.targets) > 1 && len(tv.refs[v.m.targets[1]]) > 0) {
+			res.count("crash.idle_restarts_with_surviving_reference_files", 1)
+		}
+		for _, iv := range v.m.targets {
+			if v.tainted[iv] {
+				continue
+			}
+			r := v.m.compare(iv, tv.obs[iv], v.inclFor(iv), 6)
+			v.countCompare(iv, r)
+			if r.Mismatch > 0 {
+				v.reportDiffs(iv, ctx, r)
+			}
+		}
+		v.checkNotes(ctx, tv)
+		v.crashWindow = true
+		v.checkBookkeeping("idle-restart", tv, books)
+		v.crashWindow = false
+	}
+	rollupCtx := "crash-recovery-and-rollup"
+	if restarts > 0 {
+		rollupCtx = "crash-recovery-idle-restarts-and-rollup"
+		res.count("crash.images_rolled_up_after_idle_restarts", 1)
+	}
+
 	// ---- 2. rollup to quiescence on the recovered engine: exactly once
 	for round := 0; round < 3; round++ {
 		pend := 0
@@ -276,10 +340,37 @@ func (h *hist) verifyImage(img imgfs.Image, before map[int]map[int64]string) {
 		r := v.m.compare(iv, tv.obs[iv], v.inclFor(iv), 6)
 		v.countCompare(iv, r)
 		if r.Mismatch > 0 {
-			v.reportDiffs(iv, "crash-recovery-and-rollup", r)
+			v.reportDiffs(iv, rollupCtx, r)
 		}
 	}
-	v.checkNotes("crash-recovery-and-rollup", tv)
-	v.checkBookkeeping("crash-recovery-and-rollup", tv, books)
+	v.checkNotes(rollupCtx, tv)
+	v.checkBookkeeping(rollupCtx, tv, books)
 	res.count("crash.images_rolled_up_to_quiescence_after_recovery", 1)
+}
+
+func marksOf(books []famBook) []string {
+	var out []string
+	for i, b := range books {
+		var ns []int
+		for n := range b.Marks {
+			ns = append(ns, int(n.Int64()))
+		}
+		sort.Ints(ns)
+		for _, n := range ns {
+			out = append(out, fmt.Sprintf("family%d/table%d->%v", i, n, b.Marks[table.FileNumber(n)]))
+		}
+	}
+	return out
+}
+
+// refSet renders the reference files of all target families as a sorted list.
+func refSet(m *model, tv *targetView) string {
+	var out []string
+	for _, iv := range m.targets {
+		for _, re := range tv.refs[iv] {
+			out = append(out, fmt.Sprintf("%s<-%s/id%d/table%d", m.places[re.Place], re.SrcStore, re.FamID, re.File))
+		}
+	}
+	sort.Strings(out)
+	return fmt.Sprint(out)
 }
